@@ -14,6 +14,7 @@ increase (effective = `r` attribute if present, else previous + 1).
 -/
 import XlModel.Lemmas.Readers
 import XlModel.Lemmas.ReadersLoad
+import XlModel.ReadersState
 
 deriving instance DecidableEq for Except
 
@@ -179,6 +180,24 @@ theorem getCellStyle_obs (s : Sheet) (c r : Nat) :
     (∀ n, searchSheet (getCellStyleState s c r) n = searchSheet s n) ∧
     (∀ a b, getCellValue (getCellStyleState s c r) a b = getCellValue s a b) := by
   simp [getCellStyle_pure]
+
+/-- clause "read-only calls are pure", `GetCellValue`/`GetRows`/`GetCols`/`SearchSheet` on a
+numeric cell: the stored text after a formatted read is the stored text before it, whatever
+rendering `getValueFrom` computed (it used to be that rendering: `1.0000000000000002` → `1`). -/
+theorem getCellValue_keeps_stored (v norm : Val) : storedAfterFormattedRead v norm = v := by
+  simp [storedAfterFormattedRead, facts_pinned.2.2.2.2.2.1]
+
+/-- open finding `purity:obs:GetMergeCells:overlapping-merges`, on C03's merge list model:
+with the overlapping ranges D8:F10 and B7:D9 (both accepted by `MergeCell`), `GetCellValue(E7)`
+returns E7's own value; after `GetMergeCells` (which replaces the list by the single range
+B7:F10, in place) the same call is redirected to B7 and returns the empty string. -/
+theorem finding_getMergeCells_overlapping :
+    let s : Sheet := (List.range 7).map fun i =>
+      ⟨i + 1, false, if i = 6 then [⟨5, 7, ['v'], false, false⟩] else []⟩
+    let ms := [mrange 4 8 6 10, mrange 2 7 4 9]
+    getCellValueM s ms 5 7 = ['v'] ∧
+    getMergeCellsState ms = [mrange 2 7 6 10] ∧
+    getCellValueM s (getMergeCellsState ms) 5 7 = [] := by decide
 
 /-- regression witness of the repaired defect: with the old body (`prepareSheetXML`)
 row 5 of an empty sheet turns visible after reading the style of A10. -/
